@@ -198,6 +198,7 @@ def check_history(arg):
             if w is not None:
                 w.max_ncwb = limit
             continue
+        prev = (w.line, getattr(w, "type", None)) if w is not None else None
         try:
             if w is None:
                 w = Wildcard(line, max_ncwb=limit)
@@ -210,6 +211,18 @@ def check_history(arg):
             accepted = False
         if w is None:
             continue
+        if not accepted and prev is not None:
+            try:
+                now = (w.line, getattr(w, "type", None))
+            except Exception as ex_:
+                now = (f"{type(ex_).__name__}: {ex_}", None)
+            if now != prev:
+                fails.append(dict(key=f"bounded/{cls}.history:rejected-line-changed-the-object",
+                                  what=f"{cls}: after {lines[:i + 1]}: the last line was rejected, but the object went from line/type {prev} to {now}",
+                                  inputs=dict(lines=list(lines[:i + 1])),
+                                  cmd=("import sys; sys.path.insert(0, 'props'); import C05\n"
+                                       f"fails, _ = C05.check_history({arg!r})\nprint([f['what'] for f in fails]); sys.exit(1 if fails else 0)\n")))
+                break
         # limits reject, never approximate: an accepted line needs at most `limit` non-contiguous bits
         if accepted:
             mt = line.split()[1]
